@@ -388,7 +388,7 @@ func vmCheck(k *h.Case, rp *spec.Program, out string, o vmCheckOpts, tag string)
 			k.Count("vm_runs", 1)
 			var a, b []string
 			if o.Full {
-				a, b = rt.Full(), vt.Full()
+				a, b = normFull(rt), normFull(vt)
 			} else {
 				a, b = rt.Cmds(), vt.Cmds()
 			}
@@ -429,4 +429,17 @@ func vmCheck(k *h.Case, rp *spec.Program, out string, o vmCheckOpts, tag string)
 		k.Count("instr_executed", int64(len(vm.Hits)))
 	}
 	return ok
+}
+
+// normFull renders a full trace with command texts reduced to token sequences.
+func normFull(t *ref.Trace) []string {
+	var out []string
+	for _, e := range t.Events {
+		if e.K == 'c' {
+			out = append(out, "cmd "+normLine(e.Text))
+		} else {
+			out = append(out, e.String())
+		}
+	}
+	return append(out, "=>"+t.Term)
 }
